@@ -5,8 +5,8 @@
     every statement whose subject is not an instance and (with inverse paths)
     whose object is not one: it computes the same from the restriction of the
     graph to the statements touching an instance.  The endpoint delivers a
-    permutation of exactly that restriction, plus -- with inverse paths -- a
-    second copy of every statement linking two instances. *)
+    permutation of exactly that restriction (each statement once, since the
+    repair of finding C15-F2). *)
 From Coq Require Import List Ascii String ZArith Bool Lia Permutation.
 From Shexer Require Import Lib.PyStr Lib.Dict Gen.Consts Spec.Rdf Spec.EndpointSpec
      Model.Tracker Model.Profiler Model.Endpoint Proofs.EndpointProofs.
@@ -111,34 +111,25 @@ Qed.
 
 Lemma delivered_vs_relevant c G I T :
   dom c G -> (forall id, Profiler.tracked I id = mem_str id T) ->
-  Permutation (local_graph (neighbourhood (c_inverse c) T G))
-              (filter (rel (c_inverse c) I) (local_graph G) ++
-               local_graph (filter (fun t => subj_in T t && obj_in T t) (if c_inverse c then G else []))).
+  local_graph (touching (c_inverse c) T G) = filter (rel (c_inverse c) I) (local_graph G).
 Proof.
-  intros Hd HI. unfold local_graph. rewrite filter_map_commute.
-  rewrite (filter_ext_in _ (fun t => subj_in T t || (c_inverse c && obj_in T t)))
-    by (intros t Ht; eapply rel_local; eauto).
-  rewrite <- map_app. apply Permutation_map. unfold neighbourhood, out_of, into.
-  destruct (c_inverse c); cbn [andb].
-  - apply filter_or_and.
-  - cbn. rewrite !app_nil_r. apply Permutation_refl'. apply filter_ext. intros t. rewrite orb_false_r. reflexivity.
+  intros Hd HI. unfold local_graph, touching. rewrite filter_map_commute. f_equal.
+  apply filter_ext_in. intros t Ht. symmetry. eapply rel_local; eauto.
 Qed.
 
 (** (d) for the class modes *)
 Lemma equals_local_class c G O all_mode classes I :
-  ord_ok O -> dom c G -> (forall pass, pcls G c O pass all_mode classes <> []) ->
+  ord_ok O -> dom c G ->
   let r := run_class G c all_mode classes O in
   let T2 := ptargets G c O 2 all_mode classes in
   (forall id, Profiler.tracked I id = mem_str id T2) ->
-  Permutation (yields (r_p2 r))
-              (filter (rel (c_inverse c) I) (local_graph G) ++
-               local_graph (filter (fun t => subj_in T2 t && obj_in T2 t) (if c_inverse c then G else []))) /\
+  Permutation (yields (r_p2 r)) (filter (rel (c_inverse c) I) (local_graph G)) /\
   annotate_all (c_tau c) (c_inverse c) (local_graph G) I =
   annotate_all (c_tau c) (c_inverse c) (filter (rel (c_inverse c) I) (local_graph G)) I.
 Proof.
-  intros Ho Hd Hne r T2 HI. split; [|apply annotate_all_restrict].
-  destruct (triples_class c G O all_mode classes Ho Hd Hne) as [_ [A _]]. fold r T2 in A.
-  eapply perm_trans; [exact A|]. apply delivered_vs_relevant; auto.
+  intros Ho Hd r T2 HI. split; [|apply annotate_all_restrict].
+  destruct (triples_class c G O all_mode classes Ho Hd) as [_ [A _]]. fold r T2 in A.
+  rewrite <- (delivered_vs_relevant c G I T2 Hd HI). exact A.
 Qed.
 
 Lemma equals_local_map c G O items I :
@@ -146,15 +137,13 @@ Lemma equals_local_map c G O items I :
   let r := run c (MShapeMap items) G O in
   let T := collect G O 1 2 (c_tau c) (-1) items in
   (forall id, Profiler.tracked I id = mem_str id T) ->
-  Permutation (yields (r_p2 r))
-              (filter (rel (c_inverse c) I) (local_graph G) ++
-               local_graph (filter (fun t => subj_in T t && obj_in T t) (if c_inverse c then G else []))) /\
+  Permutation (yields (r_p2 r)) (filter (rel (c_inverse c) I) (local_graph G)) /\
   annotate_all (c_tau c) (c_inverse c) (local_graph G) I =
   annotate_all (c_tau c) (c_inverse c) (filter (rel (c_inverse c) I) (local_graph G)) I.
 Proof.
   intros Ho Hd Hit r T HI. split; [|apply annotate_all_restrict].
   destruct (triples_map c G O items Ho Hd Hit) as [_ [_ [A _]]]. fold r T in A.
-  eapply perm_trans; [exact A|]. apply delivered_vs_relevant; auto.
+  rewrite <- (delivered_vs_relevant c G I T Hd HI). exact A.
 Qed.
 
 (** ** the model's reading position of pass 1 is the frozen tracker's:
